@@ -1,61 +1,784 @@
+//! G3 harness for C17: builds object graphs of the REAL iceoryx2 API (node(s), service handle(s),
+//! two ports, objects in flight) and drops the objects in EVERY order (or a seeded sample of
+//! orders); after each drop it lists the resources of the isolated domain and runs a smoke
+//! operation on every survivor; at the end the domain must contain only what persists per domain
+//! and the same names must be usable again with different settings.
+//!
+//! usage: c17 exh  <variant> <pattern> <nnodes> <shard> <nshards>
+//!        c17 rnd  <variant> <pattern> <nnodes> <shard> <nshards> <seed> <count>
+//!        c17 perm <variant> <pattern> <nnodes> <s0,s1,...>           (one drop order, slot numbers)
+//!   variant = ipc | local | ipc_threadsafe | local_threadsafe
+//!   pattern = pubsub | event | reqres | blackboard
+//!
+//! slots (drop order refers to these):
+//!   pubsub      node.. svc.. publisher subscriber sample_mut sample
+//!   event       node.. svc.. notifier listener
+//!   reqres      node.. svc.. client server pending_response active_request [response: one node only]
+//!   blackboard  node.. svc.. writer reader entry_handle_mut entry_handle
+//!   port A (publisher/notifier/client/writer) lives on node 0's service handle, port B on the
+//!   last node's.  Objects with a lifetime parameter tied to another object cannot be held in
+//!   independent slots and are therefore not part of any order (see `excluded` in the C header).
+//!
+//! output (read by ocaml/c17/driver):
+//!   C <variant> <pattern> nodes=<n> slots=<k> fs=<0|1> order=<s0,s1,..> names=<slot names>
+//!   S <counts>                                   resources after construction
+//!   O drop <slot> = <ok|P> ; <counts> ; <slot>:<smoke result> ...
+//!   O end = left=<leftovers|-> nodes=<n> svcs=<n> recreate=<ok|err..> left2=<..>
+//! Every permutation runs in its own root /dev/shm/verif-c17-<pid>-<n> with its own prefix.
 extern crate iceoryx2_bb_loggers;
+
+use std::io::Write;
+use std::panic::{catch_unwind, AssertUnwindSafe};
+
+use iceoryx2::active_request::ActiveRequest;
+use iceoryx2::pending_response::PendingResponse;
+use iceoryx2::port::client::Client;
+use iceoryx2::port::listener::Listener;
+use iceoryx2::port::notifier::Notifier;
+use iceoryx2::port::publisher::Publisher;
+use iceoryx2::port::reader::{EntryHandle, Reader};
+use iceoryx2::port::server::Server;
+use iceoryx2::port::subscriber::Subscriber;
+use iceoryx2::port::writer::{EntryHandleMut, Writer};
 use iceoryx2::prelude::*;
+use iceoryx2::response::Response;
+use iceoryx2::sample::Sample;
+use iceoryx2::sample_mut::SampleMut;
+use iceoryx2::service::port_factory::{blackboard, event, publish_subscribe, request_response};
+use iceoryx2::service::Service;
 use iceoryx2_bb_container::semantic_string::SemanticString;
 use iceoryx2_bb_system_types::file_name::FileName;
 use iceoryx2_bb_system_types::path::Path;
 
-fn ls(root: &str, prefix: &str, tag: &str) {
-    println!("--- {}", tag);
-    fn walk(p: &std::path::Path, d: usize) {
-        if let Ok(rd) = std::fs::read_dir(p) {
-            let mut v: Vec<_> = rd.flatten().collect();
-            v.sort_by_key(|e| e.file_name());
-            for e in v {
-                println!("{}{}", "  ".repeat(d), e.file_name().to_string_lossy());
-                if e.path().is_dir() { walk(&e.path(), d + 1); }
+const CANARY_LOAN: u64 = 0xC17A_0000_0000_0001;
+const CANARY_SENT: u64 = 0xC17B_0000_0000_0002;
+const CANARY_REQ: u64 = 0xC17C_0000_0000_0003;
+const CANARY_RESP: u64 = 0xC17D_0000_0000_0004;
+const CANARY_BB: u64 = 0xC17E_0000_0000_0005;
+
+pub struct Rng(pub u64);
+impl Rng {
+    pub fn next(&mut self) -> u64 {
+        self.0 = self.0.wrapping_add(0x9E3779B97F4A7C15);
+        let mut z = self.0;
+        z = (z ^ (z >> 30)).wrapping_mul(0xBF58476D1CE4E5B9);
+        z = (z ^ (z >> 27)).wrapping_mul(0x94D049BB133111EB);
+        z ^ (z >> 31)
+    }
+    pub fn below(&mut self, n: u64) -> u64 {
+        if n == 0 { 0 } else { self.next() % n }
+    }
+}
+
+fn out(s: &str) {
+    let so = std::io::stdout();
+    let mut l = so.lock();
+    let _ = l.write_all(s.as_bytes());
+    let _ = l.write_all(b"\n");
+    let _ = l.flush();
+}
+
+fn res<T, E: core::fmt::Debug>(r: Result<T, E>) -> Result<T, String> {
+    r.map_err(|e| format!("err:{:?}", e).replace(' ', "_"))
+}
+
+/// one object graph: slots that can be dropped individually and probed while alive
+trait Scenario {
+    fn names(&self) -> Vec<&'static str>;
+    fn alive(&self, k: usize) -> bool;
+    fn drop_slot(&mut self, k: usize);
+    fn smoke(&mut self, k: usize, round: u64) -> Result<(), String>;
+}
+
+fn node_smoke<S: Service>(n: &Node<S>) -> Result<(), String> {
+    let mut cnt = 0;
+    res(Node::<S>::list(n.config(), |_| {
+        cnt += 1;
+        CallbackProgression::Continue
+    }))?;
+    if cnt == 0 { Err("node-list-empty".into()) } else { Ok(()) }
+}
+
+fn node_name(i: usize) -> NodeName {
+    NodeName::new(&format!("c17node{}", i)).unwrap()
+}
+
+fn service_name() -> ServiceName {
+    "c17/svc".try_into().unwrap()
+}
+
+fn make_nodes<S: Service>(cfg: &Config, nn: usize) -> Vec<Option<Node<S>>> {
+    (0..nn).map(|i| Some(NodeBuilder::new().name(&node_name(i)).config(cfg).create::<S>().expect("node"))).collect()
+}
+
+// ------------------------------------------------------------------------------------------
+// publish-subscribe
+// ------------------------------------------------------------------------------------------
+struct PubSub<S: Service> {
+    nodes: Vec<Option<Node<S>>>,
+    svcs: Vec<Option<publish_subscribe::PortFactory<S, u64, ()>>>,
+    publisher: Option<Publisher<S, u64, ()>>,
+    subscriber: Option<Subscriber<S, u64, ()>>,
+    sample_mut: Option<SampleMut<S, u64, ()>>,
+    sample: Option<Sample<S, u64, ()>>,
+}
+
+impl<S: Service> PubSub<S> {
+    fn build(cfg: &Config, nn: usize) -> Self {
+        let nodes = make_nodes::<S>(cfg, nn);
+        let mut svcs = vec![];
+        for (i, n) in nodes.iter().enumerate() {
+            let b = n.as_ref().unwrap().service_builder(&service_name()).publish_subscribe::<u64>();
+            svcs.push(Some(if i == 0 { b.create().expect("create service") } else { b.open().expect("open service") }));
+        }
+        let publisher = svcs[0].as_ref().unwrap().publisher_builder().create().expect("publisher");
+        let subscriber = svcs[nn - 1].as_ref().unwrap().subscriber_builder().create().expect("subscriber");
+        publisher.loan_uninit().expect("loan").write_payload(CANARY_SENT).send().expect("send");
+        let sample = subscriber.receive().expect("receive").expect("a sample");
+        let sample_mut = publisher.loan_uninit().expect("loan").write_payload(CANARY_LOAN);
+        PubSub { nodes, svcs, publisher: Some(publisher), subscriber: Some(subscriber), sample_mut: Some(sample_mut), sample: Some(sample) }
+    }
+    fn recreate(cfg: &Config) -> Result<(), String> {
+        let node = res(NodeBuilder::new().name(&node_name(0)).config(cfg).create::<S>())?;
+        let svc = res(node.service_builder(&service_name()).publish_subscribe::<u32>().max_publishers(3).subscriber_max_buffer_size(5).create())?;
+        let p = res(svc.publisher_builder().create())?;
+        let s = res(svc.subscriber_builder().create())?;
+        res(p.send_copy(17))?;
+        match res(s.receive())? {
+            Some(x) if *x == 17 => Ok(()),
+            Some(x) => Err(format!("recreated-service-delivered-{}", *x)),
+            None => Err("recreated-service-delivered-nothing".into()),
+        }
+    }
+}
+
+impl<S: Service> Scenario for PubSub<S> {
+    fn names(&self) -> Vec<&'static str> {
+        let mut v = vec![];
+        for _ in 0..self.nodes.len() { v.push("node"); }
+        for _ in 0..self.svcs.len() { v.push("svc"); }
+        v.extend(["publisher", "subscriber", "sample_mut", "sample"]);
+        v
+    }
+    fn alive(&self, k: usize) -> bool {
+        let nn = self.nodes.len();
+        if k < nn { return self.nodes[k].is_some(); }
+        if k < 2 * nn { return self.svcs[k - nn].is_some(); }
+        match k - 2 * nn { 0 => self.publisher.is_some(), 1 => self.subscriber.is_some(), 2 => self.sample_mut.is_some(), 3 => self.sample.is_some(), _ => false }
+    }
+    fn drop_slot(&mut self, k: usize) {
+        let nn = self.nodes.len();
+        if k < nn { drop(self.nodes[k].take()); return; }
+        if k < 2 * nn { drop(self.svcs[k - nn].take()); return; }
+        match k - 2 * nn { 0 => drop(self.publisher.take()), 1 => drop(self.subscriber.take()), 2 => drop(self.sample_mut.take()), 3 => drop(self.sample.take()), _ => {} }
+    }
+    fn smoke(&mut self, k: usize, round: u64) -> Result<(), String> {
+        let nn = self.nodes.len();
+        if k < nn { return node_smoke(self.nodes[k].as_ref().unwrap()); }
+        if k < 2 * nn {
+            let s = self.svcs[k - nn].as_ref().unwrap();
+            let _ = s.dynamic_config().number_of_publishers();
+            let mut c = 0;
+            res(s.nodes(|_| { c += 1; CallbackProgression::Continue }))?;
+            return if c == 0 { Err("service-lists-no-node".into()) } else { Ok(()) };
+        }
+        match k - 2 * nn {
+            0 => {
+                let p = self.publisher.as_ref().unwrap();
+                let l = res(p.loan_uninit())?;
+                res(l.write_payload(7000 + round).send())?;
+                Ok(())
+            }
+            1 => {
+                let s = self.subscriber.as_ref().unwrap();
+                while let Some(x) = res(s.receive())? {
+                    if !(7000..8000).contains(&*x) { return Err(format!("received-{:x}", *x)); }
+                }
+                Ok(())
+            }
+            2 => {
+                let v = *self.sample_mut.as_ref().unwrap().payload();
+                if v == CANARY_LOAN { Ok(()) } else { Err(format!("canary:{:x}", v)) }
+            }
+            3 => {
+                let v = *self.sample.as_ref().unwrap().payload();
+                if v == CANARY_SENT { Ok(()) } else { Err(format!("canary:{:x}", v)) }
+            }
+            _ => Ok(()),
+        }
+    }
+}
+
+// ------------------------------------------------------------------------------------------
+// event
+// ------------------------------------------------------------------------------------------
+struct Ev<S: Service> {
+    nodes: Vec<Option<Node<S>>>,
+    svcs: Vec<Option<event::PortFactory<S>>>,
+    notifier: Option<Notifier<S>>,
+    listener: Option<Listener<S>>,
+}
+
+impl<S: Service> Ev<S> {
+    fn build(cfg: &Config, nn: usize) -> Self {
+        let nodes = make_nodes::<S>(cfg, nn);
+        let mut svcs = vec![];
+        for (i, n) in nodes.iter().enumerate() {
+            let b = n.as_ref().unwrap().service_builder(&service_name()).event();
+            svcs.push(Some(if i == 0 { b.create().expect("create service") } else { b.open().expect("open service") }));
+        }
+        let notifier = svcs[0].as_ref().unwrap().notifier_builder().create().expect("notifier");
+        let listener = svcs[nn - 1].as_ref().unwrap().listener_builder().create().expect("listener");
+        notifier.notify().expect("notify");
+        Ev { nodes, svcs, notifier: Some(notifier), listener: Some(listener) }
+    }
+    fn recreate(cfg: &Config) -> Result<(), String> {
+        let node = res(NodeBuilder::new().name(&node_name(0)).config(cfg).create::<S>())?;
+        let svc = res(node.service_builder(&service_name()).event().max_notifiers(3).max_listeners(2).event_id_max_value(9).create())?;
+        let l = res(svc.listener_builder().create())?;
+        let n = res(svc.notifier_builder().create())?;
+        res(n.notify_with_custom_event_id(EventId::new(7)))?;
+        let mut got = vec![];
+        res(l.try_wait(|id| got.push(id.as_value())))?;
+        if got == vec![7] { Ok(()) } else { Err(format!("recreated-service-delivered-{:?}", got).replace(' ', "")) }
+    }
+}
+
+impl<S: Service> Scenario for Ev<S> {
+    fn names(&self) -> Vec<&'static str> {
+        let mut v = vec![];
+        for _ in 0..self.nodes.len() { v.push("node"); }
+        for _ in 0..self.svcs.len() { v.push("svc"); }
+        v.extend(["notifier", "listener"]);
+        v
+    }
+    fn alive(&self, k: usize) -> bool {
+        let nn = self.nodes.len();
+        if k < nn { return self.nodes[k].is_some(); }
+        if k < 2 * nn { return self.svcs[k - nn].is_some(); }
+        match k - 2 * nn { 0 => self.notifier.is_some(), 1 => self.listener.is_some(), _ => false }
+    }
+    fn drop_slot(&mut self, k: usize) {
+        let nn = self.nodes.len();
+        if k < nn { drop(self.nodes[k].take()); return; }
+        if k < 2 * nn { drop(self.svcs[k - nn].take()); return; }
+        match k - 2 * nn { 0 => drop(self.notifier.take()), 1 => drop(self.listener.take()), _ => {} }
+    }
+    fn smoke(&mut self, k: usize, _round: u64) -> Result<(), String> {
+        let nn = self.nodes.len();
+        if k < nn { return node_smoke(self.nodes[k].as_ref().unwrap()); }
+        if k < 2 * nn {
+            let s = self.svcs[k - nn].as_ref().unwrap();
+            let _ = s.dynamic_config().number_of_listeners();
+            let mut c = 0;
+            res(s.nodes(|_| { c += 1; CallbackProgression::Continue }))?;
+            return if c == 0 { Err("service-lists-no-node".into()) } else { Ok(()) };
+        }
+        match k - 2 * nn {
+            0 => { res(self.notifier.as_ref().unwrap().notify())?; Ok(()) }
+            1 => { res(self.listener.as_ref().unwrap().try_wait(|_| {}))?; Ok(()) }
+            _ => Ok(()),
+        }
+    }
+}
+
+// ------------------------------------------------------------------------------------------
+// request-response
+// ------------------------------------------------------------------------------------------
+struct ReqRes<S: Service> {
+    nodes: Vec<Option<Node<S>>>,
+    svcs: Vec<Option<request_response::PortFactory<S, u64, (), u64, ()>>>,
+    client: Option<Client<S, u64, (), u64, ()>>,
+    server: Option<Server<S, u64, (), u64, ()>>,
+    pending: Option<PendingResponse<S, u64, (), u64, ()>>,
+    active: Option<ActiveRequest<S, u64, (), u64, ()>>,
+    response: Option<Response<S, u64, ()>>,
+    has_response: bool,
+}
+
+impl<S: Service> ReqRes<S> {
+    fn build(cfg: &Config, nn: usize) -> Self {
+        let nodes = make_nodes::<S>(cfg, nn);
+        let mut svcs = vec![];
+        for (i, n) in nodes.iter().enumerate() {
+            let b = n.as_ref().unwrap().service_builder(&service_name()).request_response::<u64, u64>();
+            svcs.push(Some(if i == 0 { b.create().expect("create service") } else { b.open().expect("open service") }));
+        }
+        let client = svcs[0].as_ref().unwrap().client_builder().create().expect("client");
+        let server = svcs[nn - 1].as_ref().unwrap().server_builder().create().expect("server");
+        let pending = client.loan_uninit().expect("loan").write_payload(CANARY_REQ).send().expect("send request");
+        let active = server.receive().expect("receive").expect("a request");
+        let has_response = nn == 1; // at most 8 objects
+        let mut response = None;
+        if has_response {
+            active.loan_uninit().expect("loan response").write_payload(CANARY_RESP).send().expect("send response");
+            response = Some(pending.receive().expect("receive response").expect("a response"));
+        }
+        ReqRes { nodes, svcs, client: Some(client), server: Some(server), pending: Some(pending), active: Some(active), response, has_response }
+    }
+    fn recreate(cfg: &Config) -> Result<(), String> {
+        let node = res(NodeBuilder::new().name(&node_name(0)).config(cfg).create::<S>())?;
+        let svc = res(node.service_builder(&service_name()).request_response::<u32, u32>().max_clients(3).max_servers(3).create())?;
+        let c = res(svc.client_builder().create())?;
+        let s = res(svc.server_builder().create())?;
+        let p = res(c.send_copy(5))?;
+        let a = res(s.receive())?.ok_or("recreated-service-delivered-no-request")?;
+        if *a != 5 { return Err(format!("recreated-service-delivered-request-{}", *a)); }
+        res(a.send_copy(6))?;
+        match res(p.receive())? {
+            Some(r) if *r == 6 => Ok(()),
+            Some(r) => Err(format!("recreated-service-delivered-response-{}", *r)),
+            None => Err("recreated-service-delivered-no-response".into()),
+        }
+    }
+}
+
+impl<S: Service> Scenario for ReqRes<S> {
+    fn names(&self) -> Vec<&'static str> {
+        let mut v = vec![];
+        for _ in 0..self.nodes.len() { v.push("node"); }
+        for _ in 0..self.svcs.len() { v.push("svc"); }
+        v.extend(["client", "server", "pending_response", "active_request"]);
+        if self.has_response { v.push("response"); }
+        v
+    }
+    fn alive(&self, k: usize) -> bool {
+        let nn = self.nodes.len();
+        if k < nn { return self.nodes[k].is_some(); }
+        if k < 2 * nn { return self.svcs[k - nn].is_some(); }
+        match k - 2 * nn { 0 => self.client.is_some(), 1 => self.server.is_some(), 2 => self.pending.is_some(), 3 => self.active.is_some(), 4 => self.response.is_some(), _ => false }
+    }
+    fn drop_slot(&mut self, k: usize) {
+        let nn = self.nodes.len();
+        if k < nn { drop(self.nodes[k].take()); return; }
+        if k < 2 * nn { drop(self.svcs[k - nn].take()); return; }
+        match k - 2 * nn { 0 => drop(self.client.take()), 1 => drop(self.server.take()), 2 => drop(self.pending.take()), 3 => drop(self.active.take()), 4 => drop(self.response.take()), _ => {} }
+    }
+    fn smoke(&mut self, k: usize, round: u64) -> Result<(), String> {
+        let nn = self.nodes.len();
+        if k < nn { return node_smoke(self.nodes[k].as_ref().unwrap()); }
+        if k < 2 * nn {
+            let s = self.svcs[k - nn].as_ref().unwrap();
+            let _ = s.dynamic_config().number_of_clients();
+            let mut c = 0;
+            res(s.nodes(|_| { c += 1; CallbackProgression::Continue }))?;
+            return if c == 0 { Err("service-lists-no-node".into()) } else { Ok(()) };
+        }
+        match k - 2 * nn {
+            0 => {
+                let c = self.client.as_ref().unwrap();
+                let p = res(res(c.loan_uninit())?.write_payload(8000 + round).send())?;
+                drop(p);
+                Ok(())
+            }
+            1 => {
+                let s = self.server.as_ref().unwrap();
+                while let Some(a) = res(s.receive())? {
+                    if !(8000..9000).contains(&*a) { return Err(format!("received-{:x}", *a)); }
+                    res(res(a.loan_uninit())?.write_payload(9000 + round).send())?;
+                }
+                Ok(())
+            }
+            2 => {
+                let p = self.pending.as_ref().unwrap();
+                if *p.payload() != CANARY_REQ { return Err(format!("canary:{:x}", *p.payload())); }
+                while let Some(r) = res(p.receive())? {
+                    if !(9000..10000).contains(&*r) && *r != CANARY_RESP { return Err(format!("received-{:x}", *r)); }
+                }
+                Ok(())
+            }
+            3 => {
+                let a = self.active.as_ref().unwrap();
+                if *a.payload() != CANARY_REQ { return Err(format!("canary:{:x}", *a.payload())); }
+                res(res(a.loan_uninit())?.write_payload(9000 + round).send())?;
+                Ok(())
+            }
+            4 => {
+                let v = *self.response.as_ref().unwrap().payload();
+                if v == CANARY_RESP { Ok(()) } else { Err(format!("canary:{:x}", v)) }
+            }
+            _ => Ok(()),
+        }
+    }
+}
+
+// ------------------------------------------------------------------------------------------
+// blackboard
+// ------------------------------------------------------------------------------------------
+struct Bb<S: Service> {
+    nodes: Vec<Option<Node<S>>>,
+    svcs: Vec<Option<blackboard::PortFactory<S, u64>>>,
+    writer: Option<Writer<S, u64>>,
+    reader: Option<Reader<S, u64>>,
+    handle_mut: Option<EntryHandleMut<S, u64, u64>>,
+    handle: Option<EntryHandle<S, u64, u64>>,
+    expected: u64,
+}
+
+impl<S: Service> Bb<S> {
+    fn build(cfg: &Config, nn: usize) -> Self {
+        let nodes = make_nodes::<S>(cfg, nn);
+        let mut svcs = vec![];
+        for (i, n) in nodes.iter().enumerate() {
+            let sb = n.as_ref().unwrap().service_builder(&service_name());
+            svcs.push(Some(if i == 0 {
+                sb.blackboard_creator::<u64>().add::<u64>(0, CANARY_BB).add::<u64>(1, 1).create().expect("create service")
+            } else {
+                sb.blackboard_opener::<u64>().open().expect("open service")
+            }));
+        }
+        let writer = svcs[0].as_ref().unwrap().writer_builder().create().expect("writer");
+        let reader = svcs[nn - 1].as_ref().unwrap().reader_builder().create().expect("reader");
+        let handle_mut = writer.entry::<u64>(&0).expect("entry handle mut");
+        let handle = reader.entry::<u64>(&0).expect("entry handle");
+        Bb { nodes, svcs, writer: Some(writer), reader: Some(reader), handle_mut: Some(handle_mut), handle: Some(handle), expected: CANARY_BB }
+    }
+    fn recreate(cfg: &Config) -> Result<(), String> {
+        let node = res(NodeBuilder::new().name(&node_name(0)).config(cfg).create::<S>())?;
+        let svc = res(node.service_builder(&service_name()).blackboard_creator::<u64>().max_readers(3).add::<u32>(5, 55).create())?;
+        let r = res(svc.reader_builder().create())?;
+        let h = res(r.entry::<u32>(&5))?;
+        if *h.get() == 55 { Ok(()) } else { Err(format!("recreated-service-holds-{}", *h.get())) }
+    }
+}
+
+impl<S: Service> Scenario for Bb<S> {
+    fn names(&self) -> Vec<&'static str> {
+        let mut v = vec![];
+        for _ in 0..self.nodes.len() { v.push("node"); }
+        for _ in 0..self.svcs.len() { v.push("svc"); }
+        v.extend(["writer", "reader", "entry_handle_mut", "entry_handle"]);
+        v
+    }
+    fn alive(&self, k: usize) -> bool {
+        let nn = self.nodes.len();
+        if k < nn { return self.nodes[k].is_some(); }
+        if k < 2 * nn { return self.svcs[k - nn].is_some(); }
+        match k - 2 * nn { 0 => self.writer.is_some(), 1 => self.reader.is_some(), 2 => self.handle_mut.is_some(), 3 => self.handle.is_some(), _ => false }
+    }
+    fn drop_slot(&mut self, k: usize) {
+        let nn = self.nodes.len();
+        if k < nn { drop(self.nodes[k].take()); return; }
+        if k < 2 * nn { drop(self.svcs[k - nn].take()); return; }
+        match k - 2 * nn { 0 => drop(self.writer.take()), 1 => drop(self.reader.take()), 2 => drop(self.handle_mut.take()), 3 => drop(self.handle.take()), _ => {} }
+    }
+    fn smoke(&mut self, k: usize, round: u64) -> Result<(), String> {
+        let nn = self.nodes.len();
+        if k < nn { return node_smoke(self.nodes[k].as_ref().unwrap()); }
+        if k < 2 * nn {
+            let s = self.svcs[k - nn].as_ref().unwrap();
+            let _ = s.dynamic_config().number_of_readers();
+            let mut c = 0;
+            res(s.nodes(|_| { c += 1; CallbackProgression::Continue }))?;
+            return if c == 0 { Err("service-lists-no-node".into()) } else { Ok(()) };
+        }
+        match k - 2 * nn {
+            0 => {
+                let h = res(self.writer.as_ref().unwrap().entry::<u64>(&1))?;
+                h.update_with_copy(round);
+                Ok(())
+            }
+            1 => {
+                let h = res(self.reader.as_ref().unwrap().entry::<u64>(&0))?;
+                let v = *h.get();
+                if v == self.expected { Ok(()) } else { Err(format!("read-{:x}-expected-{:x}", v, self.expected)) }
+            }
+            2 => {
+                self.expected = 100 + round;
+                self.handle_mut.as_ref().unwrap().update_with_copy(self.expected);
+                Ok(())
+            }
+            3 => {
+                let v = *self.handle.as_ref().unwrap().get();
+                if v == self.expected { Ok(()) } else { Err(format!("canary:{:x}-expected-{:x}", v, self.expected)) }
+            }
+            _ => Ok(()),
+        }
+    }
+}
+
+// ------------------------------------------------------------------------------------------
+// resource listing of the isolated domain
+// ------------------------------------------------------------------------------------------
+#[derive(Default)]
+struct Listing {
+    mon: usize,
+    det: usize,
+    dir: usize,
+    stag: usize,
+    ptag: usize,
+    sstat: usize,
+    sdyn: usize,
+    aux: usize,
+    data: usize,
+    conn: usize,
+    ev: usize,
+    other: Vec<String>,
+    persistent: Vec<String>,
+}
+
+fn classify(l: &mut Listing, name: &str, in_nodes_dir: bool) {
+    let suffix = name.rsplit('.').next().unwrap_or("");
+    match suffix {
+        "node_monitor" | "node_monitor_context" | "node_monitor_owner_lock" => l.mon += 1,
+        "details" => l.det += 1,
+        "service_tag" => l.stag += 1,
+        "port_tag" => l.ptag += 1,
+        "service" => l.sstat += 1,
+        "dynamic" => l.sdyn += 1,
+        "data" => l.data += 1,
+        "connection" => l.conn += 1,
+        "event" | "event_mgmt" => l.ev += 1,
+        "type_details" | "request_type" | "response_type" | "blackboard_mgmt" | "blackboard_data" | "blackboard_payload" => l.aux += 1,
+        "global_mgmt" => l.persistent.push("global_mgmt".into()),
+        _ => l.other.push(format!("{}{}", if in_nodes_dir { "nodes/" } else { "" }, suffix)),
+    }
+}
+
+fn listing(root: &str, prefix: &str) -> Listing {
+    let mut l = Listing::default();
+    if let Ok(rd) = std::fs::read_dir(root) {
+        for e in rd.flatten() {
+            let name = e.file_name().to_string_lossy().to_string();
+            let p = e.path();
+            if p.is_dir() && (name == "nodes" || name == "services") {
+                l.persistent.push(format!("{}/", name));
+                if let Ok(rd2) = std::fs::read_dir(&p) {
+                    for e2 in rd2.flatten() {
+                        let n2 = e2.file_name().to_string_lossy().to_string();
+                        if e2.path().is_dir() {
+                            l.dir += 1;
+                            if let Ok(rd3) = std::fs::read_dir(e2.path()) {
+                                for e3 in rd3.flatten() {
+                                    classify(&mut l, &e3.file_name().to_string_lossy(), true);
+                                }
+                            }
+                        } else {
+                            classify(&mut l, &n2, false);
+                        }
+                    }
+                }
+            } else if p.is_dir() {
+                l.other.push(format!("dir:{}", name));
+            } else {
+                classify(&mut l, &name, false);
             }
         }
     }
-    walk(std::path::Path::new(root), 1);
-    let mut v: Vec<_> = std::fs::read_dir("/dev/shm").unwrap().flatten().map(|e| e.file_name().to_string_lossy().to_string()).filter(|n| n.starts_with(prefix)).collect();
-    v.sort();
-    for n in v { println!("  shm: {}", n); }
+    if let Ok(rd) = std::fs::read_dir("/dev/shm") {
+        for e in rd.flatten() {
+            let name = e.file_name().to_string_lossy().to_string();
+            if name.starts_with(prefix) {
+                classify(&mut l, &name, false);
+            }
+        }
+    }
+    l.other.sort();
+    l.persistent.sort();
+    l.persistent.dedup();
+    l
+}
+
+impl Listing {
+    fn text(&self, nodes: i64, svcs: i64) -> String {
+        format!(
+            "mon={},det={},dir={},stag={},ptag={},sstat={},sdyn={},aux={},data={},conn={},ev={},nodes={},svcs={},other={}",
+            self.mon, self.det, self.dir, self.stag, self.ptag, self.sstat, self.sdyn, self.aux, self.data, self.conn, self.ev, nodes, svcs,
+            if self.other.is_empty() { "-".to_string() } else { self.other.join("+") }
+        )
+    }
+    fn leftovers(&self) -> Vec<String> {
+        let mut v = vec![];
+        for (n, c) in [("node_monitor", self.mon), ("node_details", self.det), ("node_dir", self.dir), ("service_tag", self.stag), ("port_tag", self.ptag), ("static_config", self.sstat), ("dynamic_config", self.sdyn), ("aux", self.aux), ("data_segment", self.data), ("connection", self.conn), ("event", self.ev)] {
+            if c > 0 { v.push(format!("{}x{}", n, c)); }
+        }
+        v.extend(self.other.iter().cloned());
+        v
+    }
+}
+
+fn api_counts<S: Service>(cfg: &Config) -> (i64, i64) {
+    let mut n = 0i64;
+    let rn = Node::<S>::list(cfg, |_| { n += 1; CallbackProgression::Continue });
+    let mut s = 0i64;
+    let rs = S::list(cfg, |_| { s += 1; CallbackProgression::Continue });
+    (if rn.is_ok() { n } else { -1 }, if rs.is_ok() { s } else { -1 })
+}
+
+// ------------------------------------------------------------------------------------------
+// one permutation
+// ------------------------------------------------------------------------------------------
+struct Domain {
+    root: String,
+    prefix: String,
+    cfg: Config,
+}
+
+fn domain(n: u64) -> Domain {
+    let pid = std::process::id();
+    let root = format!("/dev/shm/verif-c17-{}-{}", pid, n);
+    let _ = std::fs::remove_dir_all(&root);
+    std::fs::create_dir_all(&root).expect("private root");
+    let prefix = format!("c17_{}_{}_", pid, n);
+    let mut cfg = Config::default();
+    cfg.global.prefix = FileName::new(prefix.as_bytes()).unwrap();
+    cfg.global.set_root_path(&Path::new(root.as_bytes()).unwrap());
+    Domain { root, prefix, cfg }
+}
+
+fn cleanup(d: &Domain) {
+    let _ = std::fs::remove_dir_all(&d.root);
+    if let Ok(rd) = std::fs::read_dir("/dev/shm") {
+        for e in rd.flatten() {
+            if e.file_name().to_string_lossy().starts_with(&d.prefix) {
+                let _ = std::fs::remove_file(e.path());
+            }
+        }
+    }
+}
+
+fn run_perm<S: Service, T: Scenario>(
+    variant: &str,
+    pattern: &str,
+    nn: usize,
+    fs: bool,
+    order: &[usize],
+    case_no: u64,
+    build: &dyn Fn(&Config, usize) -> T,
+    recreate: &dyn Fn(&Config) -> Result<(), String>,
+) {
+    let d = domain(case_no);
+    let order_s: Vec<String> = order.iter().map(|x| x.to_string()).collect();
+    let built = catch_unwind(AssertUnwindSafe(|| build(&d.cfg, nn)));
+    let mut sc = match built {
+        Ok(s) => s,
+        Err(_) => {
+            out(&format!("C {} {} nodes={} slots={} fs={} order={} names=- excluded=-", variant, pattern, nn, order.len(), fs as u8, order_s.join(",")));
+            out("O build = P");
+            cleanup(&d);
+            return;
+        }
+    };
+    out(&format!(
+        "C {} {} nodes={} slots={} fs={} order={} names={} excluded=WaitSetGuard<'waitset,'attachment>(borrows-WaitSet-and-the-attached-object),PortFactoryPublisher/Subscriber/..<'factory>(builders-borrow-the-PortFactory),Monofier<'a>(borrows-Notifier),ArcSyncPolicy::LockGuard<'parent>",
+        variant, pattern, nn, order.len(), fs as u8, order_s.join(","), sc.names().join(",")
+    ));
+    let (an, asv) = api_counts::<S>(&d.cfg);
+    out(&format!("S {}", listing(&d.root, &d.prefix).text(an, asv)));
+    let nslots = sc.names().len();
+    for (round, &k) in order.iter().enumerate() {
+        let r = catch_unwind(AssertUnwindSafe(|| sc.drop_slot(k)));
+        let (an, asv) = api_counts::<S>(&d.cfg);
+        let counts = listing(&d.root, &d.prefix).text(an, asv);
+        let mut smokes = vec![];
+        for j in 0..nslots {
+            if sc.alive(j) {
+                let s = catch_unwind(AssertUnwindSafe(|| sc.smoke(j, round as u64)));
+                smokes.push(format!("{}:{}", j, match s { Ok(Ok(())) => "ok".to_string(), Ok(Err(e)) => e, Err(_) => "P".to_string() }));
+            }
+        }
+        out(&format!("O drop {} = {} ; {} ; {}", k, if r.is_ok() { "ok" } else { "P" }, counts, if smokes.is_empty() { "-".to_string() } else { smokes.join(" ") }));
+    }
+    // whatever the order did not mention is dropped now (normally nothing)
+    drop(sc);
+    let l = listing(&d.root, &d.prefix);
+    let (an, asv) = api_counts::<S>(&d.cfg);
+    let left = l.leftovers();
+    let rec = catch_unwind(AssertUnwindSafe(|| recreate(&d.cfg)));
+    let rec_s = match rec { Ok(Ok(())) => "ok".to_string(), Ok(Err(e)) => e, Err(_) => "P".to_string() };
+    let l2 = listing(&d.root, &d.prefix);
+    let left2 = l2.leftovers();
+    out(&format!(
+        "O end = left={} nodes={} svcs={} recreate={} left2={} persistent={}",
+        if left.is_empty() { "-".to_string() } else { left.join("+") },
+        an, asv, rec_s,
+        if left2.is_empty() { "-".to_string() } else { left2.join("+") },
+        if l.persistent.is_empty() { "-".to_string() } else { l.persistent.join("+") }
+    ));
+    cleanup(&d);
+}
+
+fn nth_permutation(n: usize, mut idx: u64) -> Vec<usize> {
+    // lexicographic rank -> permutation
+    let mut fact = vec![1u64; n + 1];
+    for i in 1..=n { fact[i] = fact[i - 1] * i as u64; }
+    let mut items: Vec<usize> = (0..n).collect();
+    let mut p = vec![];
+    for i in (0..n).rev() {
+        let q = (idx / fact[i]) as usize;
+        idx %= fact[i];
+        p.push(items.remove(q));
+    }
+    p
+}
+
+fn nslots_of(pattern: &str, nn: usize) -> usize {
+    2 * nn + match pattern { "pubsub" => 4, "event" => 2, "reqres" => if nn == 1 { 5 } else { 4 }, "blackboard" => 4, _ => 0 }
+}
+
+fn orders(a: &[String], n: usize) -> Vec<Vec<usize>> {
+    match a[1].as_str() {
+        "perm" => vec![a[5].split(',').map(|x| x.parse().expect("slot number")).collect()],
+        "exh" => {
+            let shard: u64 = a[5].parse().unwrap();
+            let nshards: u64 = a[6].parse().unwrap();
+            let total: u64 = (1..=n as u64).product();
+            (0..total).filter(|i| i % nshards == shard).map(|i| nth_permutation(n, i)).collect()
+        }
+        "rnd" => {
+            let shard: u64 = a[5].parse().unwrap();
+            let seed: u64 = a[7].parse().unwrap();
+            let count: u64 = a[8].parse().unwrap();
+            let mut rng = Rng(seed ^ shard.wrapping_mul(0xA24BAED4963EE407) ^ 0xC17);
+            (0..count)
+                .map(|_| {
+                    let mut p: Vec<usize> = (0..n).collect();
+                    for i in (1..n).rev() {
+                        let j = rng.below(i as u64 + 1) as usize;
+                        p.swap(i, j);
+                    }
+                    p
+                })
+                .collect()
+        }
+        m => panic!("unknown mode {}", m),
+    }
+}
+
+fn run_variant<S: Service>(a: &[String], fs: bool) {
+    let variant = a[2].as_str();
+    let pattern = a[3].as_str();
+    let nn: usize = a[4].parse().unwrap();
+    let n = nslots_of(pattern, nn);
+    let mut case_no = 0u64;
+    for order in orders(a, n) {
+        case_no += 1;
+        match pattern {
+            "pubsub" => run_perm::<S, PubSub<S>>(variant, pattern, nn, fs, &order, case_no, &PubSub::<S>::build, &PubSub::<S>::recreate),
+            "event" => run_perm::<S, Ev<S>>(variant, pattern, nn, fs, &order, case_no, &Ev::<S>::build, &Ev::<S>::recreate),
+            "reqres" => run_perm::<S, ReqRes<S>>(variant, pattern, nn, fs, &order, case_no, &ReqRes::<S>::build, &ReqRes::<S>::recreate),
+            "blackboard" => run_perm::<S, Bb<S>>(variant, pattern, nn, fs, &order, case_no, &Bb::<S>::build, &Bb::<S>::recreate),
+            p => panic!("unknown pattern {}", p),
+        }
+    }
 }
 
 fn main() {
+    if std::env::var("VERIF_PANIC_VERBOSE").is_err() {
+        std::panic::set_hook(Box::new(|_| {}));
+    }
     iceoryx2_log::set_log_level(iceoryx2_log::LogLevel::Fatal);
-    let pid = std::process::id();
-    let root = format!("/dev/shm/verif-c17-{}-0", pid);
-    std::fs::create_dir_all(&root).unwrap();
-    let prefix = format!("c17_{}_0_", pid);
-    let mut config = Config::default();
-    config.global.prefix = FileName::new(prefix.as_bytes()).unwrap();
-    config.global.set_root_path(&Path::new(root.as_bytes()).unwrap());
-    {
-        let node = NodeBuilder::new().config(&config).create::<ipc::Service>().unwrap();
-        ls(&root, &prefix, "node");
-        let name: ServiceName = "c17/x".try_into().unwrap();
-        let svc = node.service_builder(&name).publish_subscribe::<u64>().create().unwrap();
-        ls(&root, &prefix, "service");
-        let p = svc.publisher_builder().create().unwrap();
-        ls(&root, &prefix, "publisher");
-        let s = svc.subscriber_builder().create().unwrap();
-        ls(&root, &prefix, "subscriber");
-        let sm = p.loan_uninit().unwrap().write_payload(5);
-        sm.send().unwrap();
-        let sa = s.receive().unwrap().unwrap();
-        ls(&root, &prefix, "sample");
-        let ename: ServiceName = "c17/e".try_into().unwrap();
-        let es = node.service_builder(&ename).event().create().unwrap();
-        let l = es.listener_builder().create().unwrap();
-        let n = es.notifier_builder().create().unwrap();
-        n.notify().unwrap();
-        ls(&root, &prefix, "event");
-        drop(sa);
+    let a: Vec<String> = std::env::args().collect();
+    if a.len() < 6 {
+        eprintln!("usage: c17 exh|rnd|perm <variant> <pattern> <nnodes> ...");
+        std::process::exit(2);
     }
-    ls(&root, &prefix, "end");
-    let _ = std::fs::remove_dir_all(&root);
-    for e in std::fs::read_dir("/dev/shm").unwrap().flatten() {
-        if e.file_name().to_string_lossy().starts_with(&prefix) { let _ = std::fs::remove_file(e.path()); }
+    match a[2].as_str() {
+        "ipc" => run_variant::<ipc::Service>(&a, true),
+        "local" => run_variant::<local::Service>(&a, false),
+        "ipc_threadsafe" => run_variant::<ipc_threadsafe::Service>(&a, true),
+        "local_threadsafe" => run_variant::<local_threadsafe::Service>(&a, false),
+        v => panic!("unknown variant {}", v),
     }
+    out("DONE");
 }
